@@ -90,7 +90,7 @@ def harness(c: sym.Ctx, case: Dict[str, Any]) -> None:
                 unfinished=unfinished, wtt=wtt, elapsed=elapsed)
     # --- 3b. ... including its acknowledgement
     if not unfinished:
-        unacked = [i for i in taken if not any(e[0] == "ack" and e[1] == i for e in ev)]
+        unacked = [i for i in taken if kinds[i] == "valid" and not any(e[0] == "ack" and e[1] == i for e in ev)]
         c.check(not unacked, "every_taken_message_is_acknowledged_before_return", unacked=unacked, taken=taken)
     # --- 4. quota
     if cfg == "quota":
